@@ -447,8 +447,8 @@ func (c *Ctx) rulesC06x(a *coreAnchors) {
 		}
 		wp, wc := false, false
 		for _, g := range where {
-			wp = wp || len(writesOfFieldIn(g, pf)) > 0
-			wc = wc || len(writesOfFieldIn(g, cf)) > 0
+			wp = wp || len(writesOfFieldIn(g, pf)) > 0 || mutatesMapFieldVia(g, pf)
+			wc = wc || len(writesOfFieldIn(g, cf)) > 0 || mutatesMapFieldVia(g, cf)
 		}
 		c.check(wp && wc, "C06.pair", "Subscriptions."+gc+" removes the binding from "+prim+" and "+pairs[prim], f.Pos(), fmt.Sprintf("primary written: %v, ctx index written: %v", wp, wc))
 	}
@@ -591,4 +591,46 @@ func fieldOwner(v ssa.Value) types.Type {
 		return f.X.Type()
 	}
 	return nil
+}
+
+// mutatesMapFieldVia: f hands the map field to a function of the module that
+// updates or deletes from that parameter (a generic index helper).
+func mutatesMapFieldVia(f *ssa.Function, fld *types.Var) bool {
+	for _, b := range f.Blocks {
+		for _, ins := range b.Instrs {
+			ci, ok := ins.(ssa.CallInstruction)
+			if !ok {
+				continue
+			}
+			cal := ci.Common().StaticCallee()
+			if cal == nil {
+				continue
+			}
+			if cal.Origin() != nil {
+				cal = cal.Origin()
+			}
+			if len(cal.Blocks) == 0 || cal.Pkg == nil || !inModule(cal.Pkg.Pkg) {
+				continue
+			}
+			for i, a := range ci.Common().Args {
+				if loadOfField(a) != fld || i >= len(cal.Params) {
+					continue
+				}
+				p := ssa.Value(cal.Params[i])
+				for _, cb := range cal.Blocks {
+					for _, cin := range cb.Instrs {
+						if mu, ok := cin.(*ssa.MapUpdate); ok && mu.Map == p {
+							return true
+						}
+						if c2, ok := cin.(ssa.CallInstruction); ok {
+							if bi, ok := c2.Common().Value.(*ssa.Builtin); ok && bi.Name() == "delete" && len(c2.Common().Args) == 2 && c2.Common().Args[0] == p {
+								return true
+							}
+						}
+					}
+				}
+			}
+		}
+	}
+	return false
 }
